@@ -145,3 +145,27 @@ func H_C08_signing_hash_covers_every_field() {
 	verifAssert(string(a.Payload) == string(b.Payload), "hash-covers-payload")
 	verifAssert(pa.Cmp(pb) == 0, "hash-covers-chain-parameter")
 }
+
+// the sender cache never changes the answer: looking the sender of the same transaction up again -
+// with the same verifier, or with a verifier for another chain parameter - gives exactly what a fresh
+// derivation gives, rejected signatures included
+//verif:opt unwind=12 budget_s=900 split=14
+func H_C08_sender_cache_is_faithful() {
+	pv := int64(1)
+	signer := NewSTDEIP155Signer(big.NewInt(pv))
+	other := NewSTDEIP155Signer(big.NewInt(pv + 1))
+	d := c08Tx()
+	vs := []int64{26, 27, 28, 2*pv + 35, 2*pv + 36, 2*pv + 37, 2*pv + 38}
+	d.V = big.NewInt(vs[verifCase(len(vs))])
+	a1, e1 := sender(signer, d)
+	a2, e2 := sender(signer, d)
+	verifReach("looked-up-twice")
+	verifAssert((e1 == nil) == (e2 == nil), "second-lookup-accepts-iff-the-first-did")
+	verifAssert(a1 == a2, "second-lookup-gives-the-same-sender")
+	if e1 != nil {
+		verifReach("rejected-signature-looked-up-twice")
+	}
+	a3, e3 := sender(other, d)
+	af, ef := other.Sender(d)
+	verifAssert((e3 == nil) == (ef == nil) && a3 == af, "lookup-under-another-chain-parameter-is-a-fresh-derivation")
+}
